@@ -290,7 +290,7 @@ pub fn run(ctx: &Ctx) {
     ctx.exhaustive("url_decode", n, f, oracle);
     let (n, f) = space("strip_html", &HTML, h);
     ctx.exhaustive("strip_html", n, f, oracle);
-    ctx.random("random", ctx.pick(500_000, 3_000_000), || {
+    ctx.random("random", ctx.pick(500_000, 50_000_000), || {
         let frag = prop_oneof![
             3 => proptest::sample::select(vec!["&amp;", "&lt;", "&gt;", "&quot;", "&#39;", "&amp", "&#39", "&", "<", ">", "\"", "'", "<script>", "</script>", "<!--", "-->", "<style>", "</STYLE>", "<b>", "%C3%A9", "%C3", "%", "+", "%2B", "%ff", "%zz"]).prop_map(|s| s.to_string()),
             2 => gen::text(6),
